@@ -37,7 +37,8 @@ def clean_repo():
 
 def setup_scratch():
     global ROOT, REPO
-    srepo, sverif = "/tmp/seed-repo", "/tmp/seed-verif"
+    slot = os.environ.get("SEED_SLOT", "")
+    srepo, sverif = "/tmp/seed-repo" + slot, "/tmp/seed-verif" + slot
     sh(["git", "-C", "/repo", "worktree", "remove", "--force", srepo])
     shutil.rmtree(srepo, ignore_errors=True)
     r = sh(["git", "-C", "/repo", "worktree", "add", "-q", "--detach", srepo, "HEAD"])
@@ -54,12 +55,31 @@ def setup_scratch():
 
 
 def teardown_scratch():
-    sh(["git", "-C", "/repo", "worktree", "remove", "--force", "/tmp/seed-repo"])
-    shutil.rmtree("/tmp/seed-repo", ignore_errors=True)
+    srepo = "/tmp/seed-repo" + os.environ.get("SEED_SLOT", "")
+    sh(["git", "-C", "/repo", "worktree", "remove", "--force", srepo])
+    shutil.rmtree(srepo, ignore_errors=True)
+
+
+def merge_slots():
+    import glob
+    main_file = os.path.join(SEEDED, "RESULTS.json")
+    results = {}
+    try:
+        results = json.load(open(main_file))
+    except Exception:
+        pass
+    for f in sorted(glob.glob(os.path.join(SEEDED, "RESULTS.slot*.json"))):
+        results.update(json.load(open(f)))
+        os.remove(f)
+    json.dump(results, open(main_file, "w"), indent=1, sort_keys=True)
+    print("merged: %d entries" % len(results))
 
 
 def main():
     args = sys.argv[1:]
+    if "--merge" in args:
+        merge_slots()
+        return 0
     scratch = "--scratch" in args
     if scratch:
         args.remove("--scratch")
@@ -75,8 +95,10 @@ def main():
         print("refusing to run: /repo has uncommitted changes")
         return 2
     results = {}
+    # with SEED_SLOT=<n> (several runs side by side) each run keeps its own results file; merge them with --merge afterwards
+    results_file = os.path.join(SEEDED, "RESULTS%s.json" % (".slot" + os.environ["SEED_SLOT"] if os.environ.get("SEED_SLOT") else ""))
     try:
-        results = json.load(open(os.path.join(SEEDED, "RESULTS.json")))
+        results = json.load(open(results_file))
     except Exception:
         pass
     for sid in ids:
@@ -119,7 +141,7 @@ def main():
         if not ok:
             print("could not restore /repo; stopping")
             break
-    json.dump(results, open(os.path.join(SEEDED, "RESULTS.json"), "w"), indent=1, sort_keys=True)
+    json.dump(results, open(results_file, "w"), indent=1, sort_keys=True)
     if scratch:
         teardown_scratch()
     return 0
